@@ -569,9 +569,22 @@ def _row_numblocks(self, a):
     return (self.nb,) + (ONE,) * (a.ndim - 1)
 
 
+def _row_chunk_sizes(self, a):
+    """a.chunks: per axis the tuple of block lengths"""
+    return (SList(self.nb, lambda b: self.sz(b)),) + tuple(SList(ONE, lambda b, d=d: P(d)) for d in a.shape[1:])
+
+
+def _grid_chunk_sizes(self, a):
+    return (SList(self.rows.nb, lambda b: self.rows.sz(b)), SList(self.ncb, lambda b: self.csz(b)))
+
+
+GridChunks.chunk_sizes = _grid_chunk_sizes
+
+
 def _row_rechunk(self, spec):
     return self
 
 
 RowChunks.numblocks = _row_numblocks
+RowChunks.chunk_sizes = _row_chunk_sizes
 RowChunks.rechunk = _row_rechunk
